@@ -79,6 +79,11 @@ def gen(c):
                 continue
             add(dict({"op": "encrypt", "iface": iface, "pub": pub, "msg": rb(ln), "seed": 500 + len(lines)}, **extra),
                 {"kind": "encrun", "what": "encrypt:%s%s:len%d" % (iface, extra.get("psize", ""), ln), "iface": iface, "d": d, "psize": extra.get("psize", 0)})
+    # the pre-computed nonce table (sm2_encrypt_pre_compute + sm2_do_encrypt_ex): every slot
+    for slot in range(8):
+        for ln in ([1, 33] if c.quick else [1, 16, 33, 200, 255]):
+            add({"op": "encrypt", "iface": "pre", "slot": slot, "pub": pub, "msg": rb(ln), "seed": 900 + len(lines)},
+                {"kind": "encrun", "what": "encrypt:pre%d:len%d" % (slot, ln), "iface": "pre", "d": d, "psize": 0, "slot": slot})
     # ---- interoperability: ciphertexts made by the reference decrypt in the library (all interfaces) ----
     for ln in ([1, 16, 33, 255] if c.quick else [1, 2, 16, 31, 32, 33, 100, 254, 255]):
         m = rb(ln)
@@ -178,6 +183,14 @@ def body():
                 continue
             C1 = dec[0]
             msg = bytes.fromhex(line["msg"])
+            # "the GB/T 32918.4 value for the nonce drawn": C1 = [k]G for the nonce taken from the entropy source (32-byte draws written straight into the
+            # four 64-bit limbs, i.e. little-endian on this platform; rejected when 0 or >= n);
+            # the table interface uses the slot-th nonce of its eight, every other interface the last one it drew
+            ks = [k for k in (int.from_bytes(bytes(ev.get("draws32", [])[i:i + 32]), "little") for i in range(0, len(ev.get("draws32", [])), 32)) if 0 < k < n]
+            k = (ks[case["slot"]] if len(ks) > case["slot"] else None) if case["iface"] == "pre" else (ks[-1] if ks else None)
+            if k is None or mul(k, G) != (C1[0], C1[1]):
+                c.violation(key + ":nonce", "C1 of the ciphertext is not [k]G for the nonce drawn from the entropy source (%d draws logged)" % len(ks), {"line": line, "event": ev})
+                continue
             t, x2, y2 = kdf_table(d, C1 if C1[0] < p and C1[1] < p else None, len(msg), None)
             if x2:
                 K.hashn(t, "sm3", x2 + msg + y2)
